@@ -15,7 +15,8 @@ from pfimport import exc_enum
 from pipefunc.resources import Resources
 
 PID = "C20"
-PROPS = ["PfModel.Props.C20"]
+PROPS = ["PfModel.Props.C20", "PfModel.Props.C20Src"]
+GENERATED = True          # Props/C20Src.lean is proved against lean/PfModel/Generated/C20Facts.lean, regenerated from /repo on every run
 DRIVER = "C20"
 RULE = ("operations drawn from one seeded PRNG over Resources built from small integers (incl. 0 and negatives), memory strings "
         "across B..PB with fractions and malformed variants, wall-time strings across MM:SS / H:MM:SS / HH:MM:SS / D:HH:MM:SS with "
@@ -190,7 +191,18 @@ def run_impl(case):
     m, a = case["m"], case["a"]
     bad = []
     if m == "make":
-        return attempt(lambda: Resources(**from_json(a))), bad
+        res = attempt(lambda: Resources(**from_json(a)))
+        if "ok" in res:
+            # the property's own clause: malformed memory / time strings and exclusive combinations are rejected at construction
+            if a.get("memory") is not None and mem(a["memory"][:-1] if a["memory"].endswith("\n") else a["memory"]) is None:
+                bad.append(f"malformed memory string {a['memory']!r} accepted at construction")
+            if a.get("time") is not None and dur(a["time"]) is None:
+                bad.append(f"malformed wall-time string {a['time']!r} accepted at construction")
+            if a.get("nodes") and a.get("cpus"):
+                bad.append("nodes and cpus accepted together")
+            if a.get("cpus_per_node") and not a.get("nodes"):
+                bad.append("cpus_per_node accepted without nodes")
+        return res, bad
     if m == "mem":
         try:
             f = Resources._convert_to_gb(a)
@@ -321,6 +333,19 @@ def check_cases(ctx, cases):
         elif o != model:
             ctx.violation(case, f"implementation and model disagree on {case['m']} (property clauses hold on this input)",
                           found_input=False, item=f"correspondence:{case['m']}", impl=o, model=model)
+
+
+def pre_build(ctx):
+    """Translator (secondary tie): regenerate the Lean facts from pipefunc/resources.py."""
+    import c20_extract
+    try:
+        exps, mem_re, time_re = c20_extract.write()
+        ctx.extra["translated_from_source"] = {"units": exps, "memory_regex": mem_re, "wall_time_regex": time_re}
+    except Exception as e:  # noqa: BLE001   the source no longer has the shape the translator understands: a broken tie
+        ctx.notes.append(f"translator failed: {type(e).__name__}: {e}")
+        c20_extract.OUT.write_text("/- GENERATED stub: harness/c20_extract.py could not translate pipefunc/resources.py -/\n"
+                                   "namespace PF.Generated.C20\ndef units : List (String × Int) := []\ndef memoryRegex : String := \"\"\n"
+                                   "def wallTimeRegex : String := \"\"\nend PF.Generated.C20\n")
 
 
 def run(ctx):
